@@ -26,6 +26,7 @@ KEY = {
 PRIO = ["alloczero", "mplexseek", "unaligned", "mplexrate"]
 K_CLAMP = "extents/eof-bof-clamped-inside-nested-phase"
 K_BOFPHASE = "extents/bof-of-fields-with-phase"
+K_STALE = "extents/scalar-parameter-not-resolved-before-first-read"
 K_IMAG = "extents/imaginary-part-of-real-field-ignores-eof"
 
 
@@ -144,6 +145,15 @@ def main():
         for c in cases:
             if c.open_err != "0":
                 continue
+            # extents asked on the fresh handle, before any read, must be the ones reported after the reads
+            for (f, l0), (f1, li, lm) in zip(getattr(c, "ext0", []), c.ext):
+                e0, e1 = parse_E_impl(l0), parse_E_impl(li)
+                if e0 is None or e1 is None or e0 == e1:
+                    continue
+                st["ext_history"] = st.get("ext_history", 0) + 1
+                viol(K_STALE, "gd_eof/gd_bof/gd_spf(%s) on the freshly opened dirfile = %s, after gd_getdata calls on other windows = %s\n%s" % (
+                    f[0], l0, li, c.format_text()), {"kind": "extents-history", "format": c.format_text(), "field": f[0], "before_reads": l0, "after_reads": li,
+                    "how": "printf 'O <dir>\\nE %s\\nG %s 9 0 5\\nE %s\\n' | harness/C01/rd" % (f[0], f[0], f[0])})
             ext = {}
             for (f, li, lm) in c.ext:
                 ei, em = parse_E_impl(li), parse_E_model(lm)
@@ -162,13 +172,13 @@ def main():
                 else:
                     # judge against the documented end-of-field
                     s_eof = em["spec_eof"] if em["spec_eof"] is not None else -12
-                    viol("extents/eof-model" if ei["eof"] == s_eof else "extents/eof-wrong/" + f[1],
+                    viol(K_STALE if f[0] in getattr(c, "scalar_phase", set()) else ("extents/eof-model" if ei["eof"] == s_eof else "extents/eof-wrong/" + f[1]),
                          "gd_eof(%s) = %d, gd_spf = %d; model of flimits.c: %s, %d; documented end-of-field: %s\n%s" % (
                              f[0], ei["eof"], ei["spf"], m_eof, em["spf"], s_eof, c.format_text()), base, found=ei["eof"] != s_eof)
                 if ei["bof"] == em["bof"]:
                     st["bof_model_ok"] += 1
                 else:
-                    viol("extents/bof-model" if ei["bof"] == em["spec_bof"] else "extents/bof-wrong/" + f[1],
+                    viol(K_STALE if f[0] in getattr(c, "scalar_phase", set()) else ("extents/bof-model" if ei["bof"] == em["spec_bof"] else "extents/bof-wrong/" + f[1]),
                          "gd_bof(%s) = %d; model of flimits.c: %d; documented beginning-of-field: %d\n%s" % (
                              f[0], ei["bof"], em["bof"], em["spec_bof"], c.format_text()), base, found=ei["bof"] != em["spec_bof"])
                 # --- the property: gd_bof is the first sample made of real data only
@@ -206,7 +216,9 @@ def main():
                       "data_files": {k: v.hex() for k, v in c.files.items() if not k.endswith("format") and not k.endswith(".txt")},
                       "tables": {k: v.decode() for k, v in c.files.items() if k.endswith(".txt")},
                       "how": "printf 'O <dir>\\nE %s\\nG %s %d %d %d\\n' | harness/C01/rd" % (q[0], q[0], q[1], s, n)}
-                if judged:
+                if q[0] in getattr(c, "scalar_phase", set()) and e != (em["eof"] if em["eof"] is not None else -12):
+                    key = K_STALE       # the gd_eof used here is itself the stale one
+                elif judged:
                     key = KEY[judged[0]]
                 elif not em["noclamp"]:
                     key = K_CLAMP
